@@ -10,7 +10,7 @@ from parso.utils import python_bytes_to_unicode, split_lines
 from ..common import BOM, crash_signature, digest, grammar, ref_split_lines, short
 from ..engine import Outcome, Prop
 
-CODECS = ['utf-8', 'latin-1', 'iso-8859-15', 'cp1252', 'ascii', 'utf8', 'UTF_8', 'Latin1', 'iso-latin-1-unix', 'utf-8-unix', 'cp437',
+CODECS = ['iso-latin-1', 'ISO_LATIN_1', 'latin_1', 'iso_8859_1', 'iso-8859-15', 'iso-8859-10', 'ISO_8859_16', 'latin-1-dos', 'utf-8', 'latin-1', 'iso-8859-15', 'cp1252', 'ascii', 'utf8', 'UTF_8', 'Latin1', 'iso-latin-1-unix', 'utf-8-unix', 'cp437',
           'koi8-r', 'shift_jis', 'euc-jp', 'utf-16', 'mac-roman', 'foo-8', 'utf-8-sig', 'idna', 'hex', 'l1', 'u8']
 DECL = ['# -*- coding: %s -*-', '# coding=%s', '#coding:%s', '# vim: set fileencoding=%s :', '#!/usr/bin/python # coding: %s',
         '  # coding: %s', '\t#coding=%s', 'coding: %s', 'x = 1 # coding: %s', 'encoding=%s', '"""coding: %s"""', "s = 'coding=%s'",
@@ -18,7 +18,7 @@ DECL = ['# -*- coding: %s -*-', '# coding=%s', '#coding:%s', '# vim: set fileenc
         '\f# coding: %s']
 PLAIN = ['', 'x = 1', '# just a comment', '#!/usr/bin/env python', '   ', '"""doc"""', 'import os', '\f', '# coding', 'pass']
 NEWLINES = ['\n', '\r\n', '\r', '\n', '\n']
-TAIL_TEXT = ['é', 'ü = 1', '€', 'x', '日本', '"ñ"', '# ä', '\x85', ' ']
+TAIL_TEXT = ['¤', 'Š', 'é', 'ü = 1', '€', 'x', '日本', '"ñ"', '# ä', '\x85', ' ']
 
 
 @st.composite
